@@ -25,6 +25,7 @@ import json
 import math
 import os
 import re
+import shutil
 import subprocess
 import sys
 import time
@@ -114,6 +115,19 @@ class Analysis:
 
     def __init__(self, system, line):
         self.line = line
+        self.vars, self.eqs, self.eq_order, self.var_order, self.issues = {}, {}, [], [], []
+        self.voi = self.voi_var = None
+        self.has_ext = False
+        self.type, self.valid, self.cls = "?", False, A.class_of(system)
+        self.f = {}
+        try:
+            self._parse(system, line)
+        except (KeyError, ValueError, IndexError) as ex:      # a dump that does not fit the system: reported by the caller
+            self.ok = False
+            self.valid = False
+            self.error = "unreadable dump (%r)" % (ex,)
+
+    def _parse(self, system, line):
         self.f = fields(line)
         self.ok = line.startswith("T=")
         self.type = self.f.get("T", "?")
@@ -436,7 +450,13 @@ static void dumpArray(const char *name, const double *a, size_t n)
     for (size_t i = 0; i < n; ++i) printf(" %.17g", a[i]);
 }
 static double value(size_t index) { return 1.5 + 0.25*(double) index; }
+#if !C20_EXT
 #if C20_ODE
+#define DUMP() printf("end %s", phase); dumpArray("S", states, STATE_COUNT); dumpArray("R", rates, STATE_COUNT); dumpArray("V", variables, VARIABLE_COUNT); printf("\n")
+#else
+#define DUMP() printf("end %s", phase); dumpArray("V", variables, VARIABLE_COUNT); printf("\n")
+#endif
+#elif C20_ODE
 static double callback(double voi, double *states, double *rates, double *variables, size_t index)
 {
     printf("cb %s %zu", phase, index);
@@ -462,14 +482,27 @@ int main(void)
     double voi = @VOI@;
     double *states = createStatesArray();
     double *rates = createStatesArray();
+#if C20_EXT
     phase = "init"; initialiseVariables(voi, states, rates, variables, callback); DUMP();
     phase = "consts"; computeComputedConstants(variables); DUMP();
     phase = "rates"; computeRates(voi, states, rates, variables, callback); DUMP();
     phase = "vars"; computeVariables(voi, states, rates, variables, callback); DUMP();
 #else
+    phase = "init"; initialiseVariables(states, rates, variables); DUMP();
+    phase = "consts"; computeComputedConstants(variables); DUMP();
+    phase = "rates"; computeRates(voi, states, rates, variables); DUMP();
+    phase = "vars"; computeVariables(voi, states, rates, variables); DUMP();
+#endif
+#else
+#if C20_EXT
     phase = "init"; initialiseVariables(variables, callback); DUMP();
     phase = "consts"; computeComputedConstants(variables); DUMP();
     phase = "vars"; computeVariables(variables, callback); DUMP();
+#else
+    phase = "init"; initialiseVariables(variables); DUMP();
+    phase = "consts"; computeComputedConstants(variables); DUMP();
+    phase = "vars"; computeVariables(variables); DUMP();
+#endif
 #endif
     printf("nla %d %d\n", @NLACOUNTS@);
     printf("done\n");
@@ -495,7 +528,9 @@ def run_generated(iface_h, impl_c, workdir, name, timeout=20):
             f.write(txt)
     res = {"ok": False, "error": None, "events": [], "ends": {}, "nla": (0, 0), "ode": ode, "dir": d}
     try:
-        p = subprocess.run(["cc", "-O0", "-w", "-DC20_ODE=%d" % (1 if ode else 0), "model.c", "main.c", "-lm", "-o", "prog"],
+        has_cb = "ExternalVariable" in iface_h
+        p = subprocess.run(["cc", "-O0", "-w", "-DC20_ODE=%d" % (1 if ode else 0), "-DC20_EXT=%d" % (1 if has_cb else 0),
+                            "model.c", "main.c", "-lm", "-o", "prog"],
                            cwd=d, timeout=120, stdout=subprocess.PIPE, stderr=subprocess.STDOUT)
         if p.returncode != 0:
             res["error"] = "compile: " + p.stdout.decode("utf-8", "replace")[-600:]
@@ -560,7 +595,7 @@ def same(a, b, tol=1e-9):
     return abs(a - b) <= tol * max(1.0, abs(a), abs(b))
 
 
-def check_execution(system, an, marks_kept, run):
+def check_execution(system, an, marks_kept, run, ignore_eqs=frozenset()):
     """oracle (e) on one executed case.  an = Analysis of the marked run; marks_kept = X field (the marks as the API kept
     them).  Returns (violations [(kind, text)], known [(finding id, text)], stats dict)."""
     viol, known, stats = [], [], {"callbacks": len(run["events"]), "value_checks": 0, "nla_skipped": 0, "dep_checks": 0}
@@ -604,6 +639,41 @@ def check_execution(system, an, marks_kept, run):
         if k in deps_of or k not in ext:
             continue
         deps_of[k] = [cls[(int(x.split(".")[0]), int(x.split(".")[1]))] for x in ds if x and not x.startswith("F")]
+    # NaN provenance.  [tainted]: classes INITIALISED from a variable that is marked external (initial_value names it:
+    # initialiseVariables copies the external variable's array entry before the callback has ever been called) and what is
+    # computed from them.  [unrelated_nan]: classes initialised from another (non-external) variable whose own initialisation
+    # comes later in initialiseVariables, and what is computed from them — the generator's ordering of initialisations is C03's.
+    reads = {}
+    roots_ext, roots_other = set(), set()
+    for c in system["comps"]:
+        byname = {v["name"]: v["cls"] for v in c["vars"]}
+        for q in c["eqs"]:
+            info = an.eqs.get(str(q["id"]))
+            if info is None:
+                continue
+            ks = {byname[n] for n in A.expr_names(q["lhs"]) + A.expr_names(q["rhs"])}
+            for k in info["vars"]:
+                reads.setdefault(k, set()).update(ks - {k})
+        for v in c["vars"]:
+            if isinstance(v["init"], list) and v["cls"] not in ext:
+                src = byname.get(v["init"][1])
+                if src in ext:
+                    roots_ext.add(v["cls"])
+                elif v["cls"] in an.vars and math.isnan(slot(v["cls"], final)):
+                    roots_other.add(v["cls"])
+
+    def closure(roots):
+        out = set(roots)
+        grew = True
+        while grew:
+            grew = False
+            for k, ks in reads.items():
+                if k not in out and k not in ext and ks & out:
+                    out.add(k)
+                    grew = True
+        return out
+    tainted = closure(roots_ext)
+    unrelated_nan = closure(roots_other)
     # reachability in the equation dependency graph (for the cyclic carve-out)
     def reaches(src_eqs, target):
         seen, todo = set(), list(src_eqs)
@@ -614,8 +684,12 @@ def check_execution(system, an, marks_kept, run):
             seen.add(e)
             if e == target:
                 return True
-            todo.extend(an.eqs.get(e, {}).get("deps", []))
+            todo.extend(d for d in an.eqs.get(e, {}).get("deps", []) if an.eqs.get(d, {}).get("type") != "ode")
         return False
+    # is an external equation on a cycle of the dependency graph (edges into ODEs are never followed)?
+    def succ(e):
+        return [d for d in an.eqs.get(e, {}).get("deps", []) if an.eqs.get(d, {}).get("type") != "ode"]
+    cyc_ext = any(an.eqs[e]["type"] == "external" and any(reaches([d], e) for d in succ(e)) for e in an.eq_order)
     for ph, idx, arrays in run["events"]:
         k = ext_by_index.get(idx)
         if k is None:
@@ -633,15 +707,94 @@ def check_execution(system, an, marks_kept, run):
             bad = math.isnan(at_call) or not same(at_call, at_end, 0.0)
             if not bad:
                 continue
+            if math.isnan(slot(d, final)) and d not in tainted and (d in unrelated_nan or not cyc_ext):
+                # the dependency is NaN even after computeVariables: not a matter of ordering (e.g. a constant initialised
+                # from a constant that is itself initialised later: C03's domain)
+                stats["nan_dependency"] = stats.get("nan_dependency", 0) + 1
+                continue
             text = "%s: callback for %s runs while its declared dependency %s (%s) is %r (value at the end of the method: %r)" % (
                 ph, an.vars[k]["var"], dv["var"], dv["type"], at_call, at_end)
-            if cyclic:
+            if d in tainted and math.isnan(at_end):
+                known.append(("C20-initialised-from-external", text))
+            elif cyclic:
                 known.append(("C20-cyclic-declared-dependency", text))
             elif ph == "init" and computed_here:
                 known.append(("C20-initialise-callback-before-dependencies", text))
             else:
                 viol.append(("callback-order", text))
+    # (e4) variables initialised from a variable that is marked external
+    init_end = run["ends"].get("init")
+    if init_end is not None:
+        for c in system["comps"]:
+            byname = {v["name"]: v["cls"] for v in c["vars"]}
+            for v in c["vars"]:
+                if isinstance(v["init"], list) and byname.get(v["init"][1]) in ext and v["cls"] in an.vars and v["cls"] not in ext:
+                    got = slot(v["cls"], init_end)
+                    want = 1.5 + 0.25 * ext[byname[v["init"][1]]]["index"]
+                    if not same(got, want, 0.0):
+                        known.append(("C20-initialised-from-external",
+                                      "after initialiseVariables %s (initial_value = a variable marked external) holds %r, not the callback's value %r" % (
+                                          an.vars[v["cls"]]["var"], got, want)))
     # (e3) all other values satisfy the equations
+    for e, text in value_failures(system, an, run, stats):
+        if e in ignore_eqs:
+            stats["value_failures_also_without_marks"] = stats.get("value_failures_also_without_marks", 0) + 1
+        elif cyc_ext:
+            known.append(("C20-cyclic-declared-dependency", text))
+        elif nla_cycle(an):
+            # mutually dependent NLA systems (the analyser's reading of initial guesses as extra unknowns, C05's known
+            # findings): no emission order can satisfy them in one pass; not held against the external variables
+            stats["value_failures_in_mutually_dependent_nla_systems"] = stats.get("value_failures_in_mutually_dependent_nla_systems", 0) + 1
+        else:
+            viol.append(("value", text))
+    return viol, known, stats
+
+
+def nla_cycle(an):
+    """the dependency graph of the equations, NLA systems contracted and edges into ODEs dropped, has a cycle"""
+    group = {}
+    for e in an.eq_order:
+        group.setdefault(e, e)
+    def find(x):
+        while group.get(x, x) != x:
+            x = group[x]
+        return x
+    for e in an.eq_order:
+        for s_ in an.eqs[e]["sibs"]:
+            if s_ in an.eqs:
+                group[find(s_)] = find(e)
+    edges = {}
+    for e in an.eq_order:
+        for d in an.eqs[e]["deps"]:
+            if d in an.eqs and an.eqs[d]["type"] != "ode" and find(d) != find(e):
+                edges.setdefault(find(e), set()).add(find(d))
+    state = {}
+    def visit(x):
+        if state.get(x) == 2:
+            return False
+        if state.get(x) == 1:
+            return True
+        state[x] = 1
+        r = any(visit(y) for y in edges.get(x, ()))
+        state[x] = 2
+        return r
+    return any(visit(find(e)) for e in an.eq_order)
+
+
+def value_failures(system, an, run, stats):
+    """[(equation id, text)] for the non-external equations that do not hold after computeVariables"""
+    out = []
+    final = run["ends"].get("vars")
+
+    def slot(k, arrays, rate=False):
+        if k == an.voi:
+            return VOI_VALUE
+        v = an.vars.get(k)
+        if v is None:
+            return float("nan")
+        if v["array"] == "states":
+            return arrays["R" if rate else "S"][v["index"]]
+        return arrays["V"][v["index"]]
     eqn = {}
     for ci, c in enumerate(system["comps"]):
         byname = {v["name"]: v["cls"] for v in c["vars"]}
@@ -670,8 +823,8 @@ def check_execution(system, an, marks_kept, run):
             ok = same(lhs, rhs, 1e-9)
         stats["value_checks"] += 1
         if not ok:
-            viol.append(("value", "after computeVariables equation %s (%s) does not hold: lhs=%r rhs=%r" % (e, info["type"], lhs, rhs)))
-    return viol, known, stats
+            out.append((e, "after computeVariables equation %s (%s) does not hold: lhs=%r rhs=%r" % (e, info["type"], lhs, rhs)))
+    return out
 
 
 # ------------------------------------------------------------------------------------------ case construction
@@ -736,6 +889,11 @@ def run(ctx):
     ]
     ctx.level = "proof"
     drv, mdl = drivers()
+    # a directory of its own for this run's case files and programs (two runs of the check may overlap)
+    shared_workdir = ctx.workdir
+    rundir = os.path.join(shared_workdir, "%s-%d" % (ctx.tier, os.getpid()))
+    os.makedirs(rundir, exist_ok=True)
+    ctx.workdir = rundir
     rng = ctx.rng
     n_models = 40 if quick else 600
     per_model = 25 if quick else 120
@@ -750,14 +908,31 @@ def run(ctx):
     while len(systems) < n_models + len(seeds):
         s = A.random_system(rng, max_classes=rng.choice([4, 6, 8, 10]))
         systems.append((s, None))
-    base_impl = run_sharded(drv, [], ["%s - -" % cellml_hex(s) for s, _ in systems], ctx.workdir, "base")
+    base_raw = run_sharded(drv, [], ["%s g -" % cellml_hex(s) for s, _ in systems], ctx.workdir, "base")
+    base_impl = [strip_fields(l, ("CH", "CC")) for l in base_raw]
     bases = [Analysis(s, l) for (s, _), l in zip(systems, base_impl)]
+
+    # the unmarked programs are run as well: an equation that does not hold WITHOUT marks (e.g. the cyclic NLA dependencies of
+    # C05's known findings) is not held against the external variables
+    def base_job(mi):
+        f = fields(base_raw[mi])
+        if "CC" not in f or not bases[mi].valid:
+            return mi, frozenset()
+        rn = run_generated(bytes.fromhex(f.get("CH", "")).decode(), bytes.fromhex(f["CC"]).decode(), ctx.workdir, "b%d" % mi)
+        if not rn["ok"]:
+            return mi, None
+        st = {"value_checks": 0, "nla_skipped": 0}
+        return mi, frozenset(e for e, _ in value_failures(systems[mi][0], bases[mi], rn, st))
+    with ThreadPoolExecutor(max_workers=vf.NCPU) as ex:
+        base_bad = dict(ex.map(base_job, range(len(systems))))
+    n_base_bad = sum(1 for v in base_bad.values() if v)
+    n_base_fail = sum(1 for v in base_bad.values() if v is None)
 
     cases = []       # dict(kind, mi, system, marks, roles, gen, extra)
     hist = {"model_type": {}, "roles_marked": {r: 0 for r in ROLES}, "roles_by_model_type": {}, "marks_per_case": {},
             "case_kind": {}, "marked_result_type": {}, "dependency_graph": {}, "messages": {}, "adddependency_refused": 0, "adddependency_accepted": 0,
             "executed": 0, "callbacks": 0, "dependency_checks_at_runtime": 0, "value_checks": 0, "nla_not_converged": 0,
-            "independent_classes_compared": 0, "variants": {}, "models_becoming_invalid_when_marked": 0}
+            "independent_classes_compared": 0, "value_failures_also_without_marks": 0, "unmarked_models_with_failing_equations": 0, "not_executed_unmarked_program_fails": 0, "value_failures_in_mutually_dependent_nla_systems": 0, "variants": {}, "models_becoming_invalid_when_marked": 0}
 
     def bump(h, k, n=1):
         hist[h][k] = hist[h].get(k, 0) + n
@@ -786,6 +961,14 @@ def run(ctx):
                         a, c2 = v.split(".")
                         sw.append((tok(rng.choice(mem[cls[(int(a), int(c2))]])), ds))
                 cases.append({"kind": "retargeted", "mi": mi, "system": s, "marks": sw, "roles": [], "gen": False, "of": orig})
+        # ill-posed variants of the system, marked: correspondence only (which messages survive an error, model types)
+        if mi % 3 == 0 and "truth" in s:
+            for fvar in A.ILL_POSED:
+                sv = fvar(rng, s)
+                if sv is None:
+                    continue
+                for marks, _roles in gen_markings(rng, sv, b, 3, exhaustive=False)[-3:]:
+                    cases.append({"kind": "ill-posed", "mi": mi, "system": sv, "marks": marks, "roles": [], "gen": False})
         # underconstrained variants
         for name, sv, sconst, vars_ in make_variants(rng, s, b):
             i0 = len(cases)
@@ -793,6 +976,8 @@ def run(ctx):
             cases.append({"kind": "variant-as-constant", "mi": mi, "system": sconst, "marks": [], "roles": [], "gen": False, "variant": name})
             cases.append({"kind": "variant-marked", "mi": mi, "system": sv, "marks": [(v, []) for v in vars_], "roles": [], "gen": True, "variant": name,
                           "group": i0})
+    hist["unmarked_models_with_failing_equations"] = n_base_bad
+    hist["unmarked_models_whose_program_does_not_build_or_run"] = n_base_fail
     ctx.log("models: %d valid of %d; cases: %d" % (sum(1 for b in bases if b.ok and b.valid), len(systems), len(cases)))
 
     # which cases are executed
@@ -834,6 +1019,7 @@ def run(ctx):
     distinct = set()
     late = []
     mismatch = 0
+    mismatch_idx = []
     emission_mismatch = 0
     jobs = []
     for i, c in enumerate(cases):
@@ -849,6 +1035,7 @@ def run(ctx):
         # ---- correspondence: exact
         if impl[i] != model[i]:
             mismatch += 1
+            mismatch_idx.append(i)
             if len(late) < 5:
                 late.append(("C20 correspondence: analyser and model differ", "correspondence", payload(i)))
         mf = fields(model_raw[i])
@@ -911,9 +1098,12 @@ def run(ctx):
                 violation("C20 oracle: class %d does not depend on the marked variables but its (type, equations) changed: %s -> %s" % (
                     k, b.definition(k), a.definition(k)), "independent", payload(i))
                 break
-        # ---- execution
+        # ---- execution (not when the program of the UNMARKED model does not build or run: C03's / C17's domain)
         if i in exec_set and a.has_ext:
-            jobs.append(i)
+            if base_bad.get(c["mi"]) is None:
+                hist["not_executed_unmarked_program_fails"] += 1
+            else:
+                jobs.append(i)
 
     # ---- oracle (c2): normalised / retargeted markings give the same analysis
     for i, c in enumerate(cases):
@@ -951,7 +1141,7 @@ def run(ctx):
             kk = cls[(int(x), int(y))]
             if m.vars.get(kk, {}).get("type") != "external":
                 violation("C20 oracle: the rescued unknown is not an external variable", "rescue", payload(i))
-        if i in exec_set and m.has_ext:
+        if i in exec_set and m.has_ext and base_bad.get(c["mi"]) is not None:
             jobs.append(i)
 
     # ---- emission correspondence + execution
@@ -988,7 +1178,9 @@ def run(ctx):
             if it:
                 v, ds, bits = it.split(":")
                 kept.append((v, [x for x in ds.split("+") if x], bits))
-        viol, known, st = check_execution(c["system"], a, kept, rn)
+        viol, known, st = check_execution(c["system"], a, kept, rn, base_bad.get(c["mi"]) or frozenset())
+        hist["value_failures_also_without_marks"] += st.get("value_failures_also_without_marks", 0)
+        hist["value_failures_in_mutually_dependent_nla_systems"] += st.get("value_failures_in_mutually_dependent_nla_systems", 0)
         hist["callbacks"] += st["callbacks"]
         hist["dependency_checks_at_runtime"] += st["dep_checks"]
         hist["value_checks"] += st["value_checks"]
@@ -1020,6 +1212,15 @@ def run(ctx):
         if not line or bad:
             violation("C20 model: the extracted model refutes %s on a small system (a theorem or its stated sub-domain is wrong)" % bad,
                       "search", {"search": line})
+    # a difference that is exactly the defect repaired by fixes/C20-voi-external.diff is named as such
+    if mismatch_idx:
+        unf = run_sharded(mdl, ["unfixed"], [mdl_lines[i] for i in mismatch_idx], ctx.workdir, "unfixed")
+        unf = [strip_fields(l, ("BI", "BC", "BR", "BV", "ACY", "ORD")) for l in unf]
+        nvoi = sum(1 for i, u in zip(mismatch_idx, unf) if impl[i] == u)
+        ctx.log("%d of the %d differing analyses are exactly the model of the code WITHOUT fixes/C20-voi-external.diff "
+                "(defect C20-voi-marked-external: the variable of integration marked as external stays external)" % (nvoi, len(mismatch_idx)))
+        hist["differences_explained_by_unrepaired_voi_defect"] = nvoi
+        late = [(w + (" [= model of the unrepaired code: defect C20-voi-marked-external]" if c.get("impl") in unf else ""), n, c) for w, n, c in late]
     for what, name, content in late:
         violation(what, name, content)
     if mismatch or emission_mismatch:
@@ -1045,6 +1246,9 @@ def run(ctx):
         ctx.cov["samples"] = [mdl_lines[0][:300], mdl_lines[k][:300], {"marks": marks_text(cases[k]["marks"]), "impl": impl[k][:600]}]
     ctx.cov["exhaustive"] = False
     ctx.cov["input_distribution"] = hist
+    ctx.workdir = shared_workdir
+    if nviol[0] == 0:
+        shutil.rmtree(rundir, ignore_errors=True)
     ctx.log("roles marked %s" % hist["roles_marked"])
     ctx.log("result types %s; messages %s; executed %d, callbacks %d, runtime dependency checks %d, value checks %d" % (
         hist["marked_result_type"], hist["messages"], hist["executed"], hist["callbacks"], hist["dependency_checks_at_runtime"], hist["value_checks"]))
